@@ -439,8 +439,11 @@ type hRequest struct {
 	Body      []byte // bytes delivered by the body reader
 	JBytes    []byte // the JSON document handed to BinaryConv.Do/DoInto
 	URI       string
-	BodyWS    bool // the JSON body has insignificant whitespace and api.body reads from it
-	HasNull   bool // some JSON member is null
+	// RefillParams: the request object is built with the path parameters of an earlier request and gets the actual
+	// ones through Params.Set afterwards (a server that reuses its request wrapper)
+	RefillParams bool
+	BodyWS       bool // the JSON body has insignificant whitespace and api.body reads from it
+	HasNull      bool // some JSON member is null
 	// EmptyJSONCT: an empty body is announced as application/json (the constructor then reads it)
 	EmptyJSONCT bool
 }
